@@ -67,7 +67,8 @@ block, a body on a request without framing headers): the places where the code's
 legitimately depends on the segmentation because the stream is not a single message.
 
 Not modelled: `decompress` (Content-Encoding gzip/deflate), kind=2 auto-detection (unused by
-circuits), Python exceptions of the leaf functions (C14), negative chunk sizes.
+circuits), Python exceptions of the leaf functions (C14).  A negative chunk size is InvalidChunkSize
+(`lex.chunk = none`) since the fix commit "a negative chunk size is an invalid chunk size".
 -/
 namespace CV
 namespace Http
